@@ -151,7 +151,6 @@ pub open spec fn withdraw_pays(w: World, pair: Seq<char>, pi: PairInfoRaw, i0: A
 //%if A
 //%%insert before #1 /let share_ratio: Decimal = Decimal::from_ratio\(amount, total_share\);/
     proof {
-        assert(liquidity_addr.0@ == human_of(pair_info.liquidity_token.0@));
         lemma_refund_fits(pools[0].amount.0 as nat, amount.0 as nat, total_share.0 as nat);
         lemma_refund_fits(pools[1].amount.0 as nat, amount.0 as nat, total_share.0 as nat);
     }
@@ -166,7 +165,6 @@ pub open spec fn withdraw_pays(w: World, pair: Seq<char>, pi: PairInfoRaw, i0: A
         lemma_c04(balance_of(w, pools[0].info, pair), amount.0 as nat, total_share.0 as nat);
         lemma_c04(balance_of(w, pools[1].info, pair), amount.0 as nat, total_share.0 as nat);
         assert(raw_of(pools[0].info, pair_info.asset_infos[0]) && raw_of(pools[1].info, pair_info.asset_infos[1]));
-        assert(canon_of(liquidity_addr.0@) == pair_info.liquidity_token.0@);
     }
 //%end
 
